@@ -1,4 +1,5 @@
 import Ucan.Model.Cbor
+import Ucan.Model.Base64
 /-!
 Model of `pkg/container`: the CAR v1 framing (`car.go`: `ldWrite`, `ldRead`, `readBlock`, `writeCar`,
 `readCar`, header), the CBOR container (`{"ctn-v1": [bytes…]}`), the four readers and writers.
@@ -167,5 +168,26 @@ def fromCbor {T : Type} (unsealFn : Bytes → Option (Bytes × T)) (ending : End
         | none => .error .notContainer
         | some ds => addTokens unsealFn ds
     | _ => .error .notContainer
+
+/-! ### the two base64 variants: the same container behind `base64.StdEncoding` -/
+
+/-- `ToCarBase64` / `ToCarBase64Writer` -/
+def toCarBase64 (header : Bytes) (blocks : List Block) : Bytes := Base64.encode (writeCar header blocks)
+
+/-- `FromCarBase64` / `FromCarBase64Reader`: decode, then read the CAR; text that is not base64 is an error -/
+def fromCarBase64 {T : Type} (headerOk : Bytes → Bool) (hashOk : Bytes → Bytes → Bool) (unsealFn : Bytes → Option (Bytes × T))
+    (ending : Ending) (b : Bytes) : Except Err (Entries T) :=
+  match Base64.decode b with
+  | none => .error .base64
+  | some raw => fromCar headerOk hashOk unsealFn ending raw
+
+/-- `ToCborBase64` / `ToCborBase64Writer` -/
+def toCborBase64 (sealed : List Bytes) : Bytes := Base64.encode (toCbor sealed)
+
+/-- `FromCborBase64` / `FromCborBase64Reader` -/
+def fromCborBase64 {T : Type} (unsealFn : Bytes → Option (Bytes × T)) (ending : Ending) (b : Bytes) : Except Err (Entries T) :=
+  match Base64.decode b with
+  | none => .error .base64
+  | some raw => fromCbor unsealFn ending raw
 
 end Ucan.Container
